@@ -416,13 +416,19 @@ func runC08(rc *RC) {
 	var expect []refItem
 	termKind := ""
 	swallowed := false
-	for _, it := range items {
+	var later []string // starts of the top-level elements that follow an element with a nested stream-level construct
+	for ii, it := range items {
 		if it.kind == "ws" {
 			continue
 		}
 		if it.kind == "elem" && it.el.Start.Name.Space != nsStream {
 			expect = append(expect, it)
 			if it.forbidden >= 0 {
+				for _, lt := range items[ii+1:] {
+					if lt.kind == "elem" && lt.el.Start.Name.Space != nsStream {
+						later = append(later, lt.el.Start.Name.Local+"|"+(Elem{Start: lt.el.Start}).Attr("id"))
+					}
+				}
 				termKind = "nested-forbidden"
 				// if the handler itself read up to the forbidden token it was told
 				// (it got an error instead of the token); a handler that ignores that
@@ -471,6 +477,23 @@ func runC08(rc *RC) {
 	rc.Evals["C08.c1"]++
 	if len(invs) > len(expect) && !swallowed {
 		rc.Failf("C08.c1", "extra-invocation", "handler invoked %d times, stream has %d top-level elements before %q; extra start %s", len(invs), len(expect), termKind, invs[len(expect)].start)
+	}
+	if len(invs) > len(expect) && swallowed {
+		// the handler ignored the error it got for the nested construct: what the session does next is not specified,
+		// but whatever it goes on to hand out is a top-level element of the peer's stream, never a piece of one
+		li := 0
+		for _, inv := range invs[len(expect):] {
+			found := false
+			for li < len(later) && !found {
+				parts := strings.SplitN(later[li], "|", 2)
+				found = (strings.Contains(inv.start, "|"+parts[0]+" ") || strings.HasSuffix(inv.start, "|"+parts[0]+">")) && strings.HasPrefix(inv.start, "<") && (parts[1] == "" || strings.Contains(inv.start, `id="`+parts[1]+`"`))
+				li++
+			}
+			if !found {
+				rc.Failf("C08.c1", "piece-of-an-element-invoked", "after a stream-level construct nested in a stanza (whose error the handler ignored) the handler was invoked with %s, which is no top-level element of the peer's stream (those that follow: %v)", inv.start, later)
+				break
+			}
+		}
 	}
 	if len(invs) < len(expect) && e.ServeDone {
 		rc.Failf("C08.c1", "missing-invocation:"+termKind, "handler invoked %d times, expected %d (terminator %s): first missing %s", len(invs), len(expect), termKind, tokStr(expect[len(invs)].el.Start))
